@@ -537,6 +537,26 @@ def specialise(func: ast.AST, facts: dict[str, bool]) -> ast.AST:
                     return ast.copy_location(ast.Constant(value=facts[txt]), node)
                 if isinstance(node, ast.UnaryOp) and isinstance(node.op, ast.Not) and isinstance(node.operand, ast.Constant) and isinstance(node.operand.value, bool):
                     return ast.copy_location(ast.Constant(value=not node.operand.value), node)
+                if isinstance(node, ast.IfExp) and isinstance(node.test, ast.Constant) and isinstance(node.test.value, bool):
+                    return node.body if node.test.value else node.orelse
+                if isinstance(node, ast.BoolOp) and any(isinstance(v, ast.Constant) and isinstance(v.value, bool) for v in node.values):
+                    absorbing = isinstance(node.op, ast.Or)
+                    rest = []
+                    for v in node.values:
+                        if isinstance(v, ast.Constant) and isinstance(v.value, bool):
+                            if v.value is absorbing:
+                                # everything before was neutral or unknown: the result is the absorbing constant only if nothing unknown precedes
+                                if not rest:
+                                    return ast.copy_location(ast.Constant(value=absorbing), node)
+                                rest.append(v)
+                                break
+                            continue  # neutral element
+                        rest.append(v)
+                    if not rest:
+                        return ast.copy_location(ast.Constant(value=not absorbing), node)
+                    if len(rest) == 1:
+                        return rest[0]
+                    node.values = rest
             return node
 
     new = T().visit(new)
